@@ -45,6 +45,7 @@ def gen_case(rng, tier, index):
         rng.random() < 0.7 else None
     hist = eread.read_hist(rng, fmt=fmt, compression=comp, max_sessions=3,
                            kinds=("root", "sub", "multi", "multi"),
+                           meta_modes=("none", "runs", "runs"),
                            simpool=True)
     hist["build_policy"] = rng.choice(S.POLICIES)
     readers = []
@@ -54,10 +55,16 @@ def gen_case(rng, tier, index):
                                  "tfdata" if rng.random() < 0.2 else "conc"]),
             "fp_sel": rng.choice([1, 2, 3, "s", "s+2", "s-1"]),
             "reopen": rng.random() < 0.4,
+            "tf_slow": rng.random() < 0.5,
+            "batch": rng.choice([0, 0, 2, 3]),
             "sched_seed": rng.getrandbits(48),
             "policy": rng.choice(S.POLICIES),
             "policy_param": rng.randrange(0, 4)})
-    return {"hist": hist, "readers": readers, "seed": rng.getrandbits(32)}
+    # the same selection option for all readers of a case (order must be
+    # kept under a selection too); metadata groups come from the history
+    limit = rng.choice([None, None, None, 1, 2])
+    return {"hist": hist, "readers": readers, "seed": rng.getrandbits(32),
+            "limit": limit}
 
 
 def run_case(case):
@@ -82,7 +89,16 @@ def run_case(case):
             table = env.shard_table(split)
             nshards += len(table)
             ds0 = env.hr.ds
-            ref = [i for i, _ in dsgen.read_sync(ds0, split, st["attrs"])]
+            limit = case.get("limit")
+            ref_kw = {"custom_metadata_type_limit": limit} if limit else {}
+            ref = [i for i, _ in dsgen.read_sync(ds0, split, st["attrs"],
+                                                 **ref_kw)]
+            if limit:
+                probes["selection_limit_option"] += 1
+                full = [i for i, _ in dsgen.read_sync(ds0, split,
+                                                      st["attrs"])]
+                if len(ref) < len(full):
+                    probes["selection_limit_drops_shards"] += 1
             # ---- write-order oracle (model)
             by_session = collections.defaultdict(list)
             for r in env.model.committed[split]:
@@ -90,6 +106,9 @@ def run_case(case):
             sess_of = {r.id: r.session for r in env.model.committed[split]}
             for ses, want in by_session.items():
                 got = [i for i in ref if sess_of.get(i) == ses]
+                if limit:
+                    # under a selection: a subsequence in write order
+                    want = [i for i in want if i in set(got)]
                 if got != want:
                     kind = hist["sessions"][ses]["kind"]
                     out.update(
@@ -109,7 +128,14 @@ def run_case(case):
                 fp = {"s": max(1, len(table)), "s+2": len(table) + 2,
                       "s-1": max(1, len(table) - 1)}.get(rd["fp_sel"],
                                                          rd["fp_sel"])
-                opts = {"repeat": False, "shuffle": 0, "fp": fp}
+                opts = {"repeat": False, "shuffle": 0, "fp": fp,
+                        "tf_slow": rd.get("tf_slow"),
+                        "batch": rd.get("batch", 0)}
+                if limit and iface in ("sync", "conc", "tfdata"):
+                    opts["limit"] = limit
+                elif limit:
+                    iface = "sync"
+                    opts["limit"] = limit
                 ds = env.open() if rd["reopen"] else ds0
                 seqs = []
                 try:
